@@ -186,6 +186,7 @@ class Tap(object):
         self.closed_by_exc = False
         self.watch_events = False   # keep every returned event list with a digest taken at return time
         self.returned = []
+        self.read_rng = None        # when set: the output is sometimes fetched as data_to_send(k) followed by data_to_send()
 
     def changed_after_return(self):
         """Event lists whose content no longer reads as it did when receive_data returned them (the library kept a
@@ -209,6 +210,7 @@ class Tap(object):
         t.closed_by_exc = self.closed_by_exc
         t.watch_events = False
         t.returned = []
+        t.read_rng = None
         return t
 
     def call(self, op, *args, **kw):
@@ -237,7 +239,12 @@ class Tap(object):
         out = b''
         frames = []
         if drain:
-            out = self.c.data_to_send()
+            if self.read_rng is not None and self.read_rng.random() < 0.3:
+                # any sequence of reads yields a partition of the same bytes (C21): a short read, then the rest
+                out = self.c.data_to_send(self.read_rng.choice([1, 5, 9, 17, 100, 20000]))
+                out += self.c.data_to_send()
+            else:
+                out = self.c.data_to_send()
             self.nbytes_out += len(out)
             frames = self.parser.feed(out)
             self.frames.extend(frames)
